@@ -13,7 +13,7 @@ into nasty strings and extreme numbers) and this module compares:
        rejected => no output; accepted => no duplicate members and bytes identical to a formatter
        with validations disabled
 """
-import hashlib, json, os, re, sys, time
+import hashlib, json, os, random, re, sys, time
 from decimal import Decimal
 from fractions import Fraction
 from itertools import permutations
@@ -144,7 +144,10 @@ def _chunks(path, name, seed, seen, counter):
 # --------------------------------------------------------------------------------------------
 # driver
 # --------------------------------------------------------------------------------------------
-def drive(chk, beh, release, tag):
+def drive(chk, beh, release, tag, reuse=False):
+    """Replay behaviours into the real formatter. reuse=False: a fresh formatter per behaviour and way;
+    reuse=True: one long-lived formatter per (configuration, way, variant) formats all behaviours that share
+    it, in the order given."""
     vlib.cargo_build(["emf"], release=release)
     prof = "release" if release else "debug"
     bp = os.path.join(chk.dir, f"beh-{tag}.ndjson")
@@ -152,7 +155,8 @@ def drive(chk, beh, release, tag):
     with open(bp, "w") as f:
         for b in beh:
             f.write(json.dumps({"id": b["id"], "v": b["v"], "cfg": b["cfg"], "calls": b["calls"]}) + "\n")
-    vlib.run_bin("emf", ["replay", "--behaviours", bp, "--out", op], release=release, timeout=3000)
+    vlib.run_bin("emf", ["replay", "--behaviours", bp, "--out", op] + (["--reuse", "1"] if reuse else []),
+                 release=release, timeout=3000)
     outs = vlib.read_ndjson(op)
     os.remove(op)
     os.remove(bp)
@@ -479,6 +483,9 @@ RULES = {
            "distinct_nontrivial = distinct (configuration, call sequence) pairs",
 }
 ASSUMPTIONS = [
+    "every behaviour is formatted three times per build profile: by a fresh formatter, and by long-lived formatters "
+    "(one per configuration x way x 4 concretisation variants) in TLC's order and in a seeded shuffled order; in all "
+    "three the entry is judged on its own against TLC's result for that entry (I/O failures between entries are C16)",
     "TLC results are exhaustive within the slices of EmfSlices.tla (A/A2/B/C/D exhaustive, E/E2 simulated); call "
     "sequences beyond the bounds are covered only by simulation",
     "numbers are abstract in the model (observation tokens, saturating counts on a reduced scale); number rendering is "
@@ -495,22 +502,50 @@ ASSUMPTIONS = [
 ]
 
 
-def _evaluate(chk, prop, beh, outs, debug, stats):
+HISTORY = 40
+
+
+def reuse_pass(beh, seed, shuffled):
+    """The same behaviours prepared for long-lived formatters: only four concretisation variants, so that one
+    formatter instance (configuration, way, variant) formats hundreds of entries - rejected, split and valid
+    ones mixed - in TLC's order or in a seeded shuffled order."""
+    vs = [0] + [(seed * 7919 + 131 * k) % 977 for k in (1, 2, 3)]
+    lst = [dict(b, v=vs[b["id"] % 4]) for b in beh]
+    if shuffled:
+        random.Random(seed * 1000003 + beh[0]["id"]).shuffle(lst)
+    return lst
+
+
+def _evaluate(chk, prop, beh, outs, debug, stats, mode="fresh"):
     prof = "debug" if debug else "release"
-    for b, o in zip(beh, outs):
+    bad = chk.extra.setdefault("_violating", set())
+    for pos, (b, o) in enumerate(zip(beh, outs)):
+        if mode != "fresh" and (b["id"], prof) in bad:
+            continue    # already reported with a fresh formatter
         if b["id"] != o["id"]:
             raise vlib.ToolError("driver output out of order")
         fs = judge(b, o, debug)
         nways = sum(len(g["ways"]) for g in o["runs"])
         chk.evaluations += nways
         stats["executions_" + prof] = stats.get("executions_" + prof, 0) + nways
+        if mode != "fresh":
+            stats["executions_long_lived_formatter"] = stats.get("executions_long_lived_formatter", 0) + nways
         mine = [f for f in fs if f["prop"] == prop]
         viol = [f for f in mine if f["sev"] == "violation"]
         for f in viol[:1]:
             rep = {"kind": "emf", "profile": prof, "way": f["way"],
                    "behaviour": {k: b[k] for k in ("id", "v", "cfg", "calls", "on", "off", "slice")},
                    "concrete": o["conc"], "observed": {k: f["run"][k] for k in ("ways", "status", "err", "len", "raw")}}
-            chk.violation(f["what"], rep, key=f["key"])
+            what = f["what"]
+            if mode != "fresh":
+                # the entries the same formatter instances formatted just before this one
+                hist = [x for x in beh[:pos] if x["cfg"] == b["cfg"] and x["v"] == b["v"]][-HISTORY:]
+                rep["mode"] = mode
+                rep["history"] = [{k: x[k] for k in ("id", "v", "cfg", "calls")} for x in hist]
+                what = (f"[long-lived formatter ({mode}), entry judged on its own against the model after "
+                        f"{len(hist)}+ earlier entries on the same instance] " + what)
+            bad.add((b["id"], prof))
+            chk.violation(what, rep, key=f["key"])
             stats["violating_behaviours"] = stats.get("violating_behaviours", 0) + 1
         if not viol:
             chk.traces += nways
@@ -588,6 +623,13 @@ def _run(prop, tier, chk):
                         _coverage_stats(chk, prop, beh, outs)
                     _evaluate(chk, prop, beh, outs, not rel, stats)
                     del outs
+                    # the same entries on long-lived formatters: every entry is still judged on its own
+                    # against TLC's expectation for that entry (no entry may depend on its predecessors)
+                    for shuffled in (False, True):
+                        lst = reuse_pass(beh, chk.seed, shuffled)
+                        outs = drive(chk, lst, rel, f"{name}-{beh[0]['id']}-reuse", reuse=True)
+                        _evaluate(chk, prop, lst, outs, not rel, stats, "reuse-shuffled" if shuffled else "reuse")
+                        del outs, lst
                 if len(samples) < 4:
                     samples.append(beh[len(beh) // 2])
             os.remove(path)
@@ -604,6 +646,7 @@ def _run(prop, tier, chk):
     if naccept == 0 or naccept == counter[0]:
         raise vlib.ToolError("vacuity: the generated entries are all accepted or all rejected")
     chk.extra["behaviours_total"] = counter[0]
+    chk.extra.pop("_violating", None)
     for b in samples:
         chk.sample({"cfg": b["cfg"], "calls": [[c["op"], c["name"], c["arg"], c["obs"], c["dims"]] for c in b["calls"]],
                     "model_on": "accept" if b["on"]["accept"] else b["on"]["errs"]})
@@ -627,8 +670,9 @@ def replay(prop, path):
     chk = vlib.Check(prop + "-replay", "replay")   # own scratch dir; the property's evidence file is left alone
     chk.prop = prop
     chk.findings = vlib.load_findings(prop)
-    outs = drive(chk, [b], release, f"replay-{b['id']}")
-    fs = [f for f in judge(b, outs[0], not release) if f["prop"] == prop and f["sev"] == "violation"]
+    hist = rep.get("history") or []
+    outs = drive(chk, hist + [b], release, f"replay-{b['id']}", reuse=bool(rep.get("mode")))
+    fs = [f for f in judge(b, outs[-1], not release) if f["prop"] == prop and f["sev"] == "violation"]
     for f in fs[:1]:
         chk.violation(f["what"], dict(rep, observed={k: f["run"][k] for k in ("ways", "status", "err", "len", "raw")}),
                       key=f["key"])
